@@ -6,6 +6,8 @@ CONSTANTS MaxCalls = 2
   FixEatKill = TRUE
   ReapOnRefusal = TRUE
   FixDonePrio = TRUE
+  AllowDeadline = FALSE
+  DeadlineBreaks = TRUE
 SPECIFICATION SpecLive
 INVARIANTS NoDesync OneAnswer PingOk LostCallsFail ExecAnswers NoOrphan ReapedAtServe
 PROPERTIES AllReturn CancelReturns HostDeathKillsAll
